@@ -147,7 +147,7 @@ func checkC19(c *Ctx) {
 		p.Write()
 		// reference
 		ref, _ := cdi.NewCache(cdi.WithSpecDirs(p.Conf...))
-		defer ref.Configure(cdi.WithAutoRefresh(false))
+		defer releaseCache(ref)
 		refErrs := ref.GetErrors()
 		var errKeys []string
 		for k := range refErrs {
